@@ -613,15 +613,18 @@ class TDS(BaseRoutine):
         # do not skip over the end time
         self.h = max(min(self.h, config.tf - system.dae.t), 0)
 
-        # skip the first switch at the exact first time step to avoid h == 0
-        if self._switch_idx < system.n_switches:
-            if (not resume) and (system.dae.t == system.switch_times[self._switch_idx]):
-                self._switch_idx += 1
+        # look past a switch at the exact current time to avoid h == 0.
+        # `_switch_idx` itself is only advanced by `do_switch` once the event has been applied;
+        # advancing it here dropped events scheduled at the simulation start time.
+        next_idx = self._switch_idx
+        if next_idx < system.n_switches:
+            if (not resume) and (system.dae.t == system.switch_times[next_idx]):
+                next_idx += 1
 
         # do not skip over event switch_times
-        if self._switch_idx < system.n_switches:
-            if (system.dae.t + self.h) > system.switch_times[self._switch_idx]:
-                self.h = system.switch_times[self._switch_idx] - system.dae.t
+        if next_idx < system.n_switches:
+            if (system.dae.t + self.h) > system.switch_times[next_idx]:
+                self.h = system.switch_times[next_idx] - system.dae.t
 
         if self.data_csv is not None:
             if self.k_csv + 1 < self.data_csv.shape[0]:
